@@ -12,6 +12,7 @@ import (
 func init() {
 	zzsv.Register("ZZ_C15_Copies", ZZ_C15_Copies)
 	zzsv.Register("ZZ_C15_Host", ZZ_C15_Host)
+	zzsv.Register("ZZ_C15_LoopValues", ZZ_C15_LoopValues)
 }
 
 func stIncr(name, op string, e *zzExpr) *zzStmt { return &zzStmt{kind: sIncr, name: name, op: op, e: e} }
@@ -159,4 +160,79 @@ func ZZ_C15_Host(sv *zzsv.T) {
 	sv.Assert("C15.host.result", err == nil && zzSame(sv, out, zInt(v+d)))
 	sv.Assert("C15.host.variable_unchanged", zzSame(sv, e.GetVariable("h"), zInt(v)))
 	sv.Assert("C15.host.object_unchanged", hostObj.Value == v)
+}
+
+// ZZ_C15_LoopValues: the values a foreach hands out (characters and indexes
+// of a string, elements of an array or range, keys and values of a hash) are
+// values like any other: kept in another variable - directly, through a
+// function, or as "the previous one" - they still read the same after the
+// loop has moved on.
+func ZZ_C15_LoopValues(sv *zzsv.T) {
+	vars := map[string]zv{}
+	var order []string
+	var it *zzExpr
+	n := 1 + sv.Choice("len", 3) // 1..3 entries
+	switch sv.Choice("container", 5) {
+	case 0: // string variable: symbolic ASCII or multi-byte characters
+		s, _ := zzChars(sv, "s", n)
+		vars["S"] = zStr(s)
+		order = append(order, "S")
+		it = xVar("S")
+	case 1: // string literal
+		it = &zzExpr{kind: eStr, s: []string{"x", "xy", "xyz"}[n-1]}
+	case 2: // array of integers
+		av := zv{t: tArray}
+		for k := 0; k < n; k++ {
+			av.arr = append(av.arr, zInt(sv.Int64("el")))
+		}
+		vars["A"] = av
+		order = append(order, "A")
+		it = xVar("A")
+	case 3: // range
+		it = &zzExpr{kind: eRange, a: xLit(5), b: xLit(int64(4 + n))}
+	default: // hash (keys in sorted order)
+		hv := zv{t: tHash}
+		for k := 0; k < n; k++ {
+			hv.hk = append(hv.hk, zStr([]string{"a", "b", "c"}[k]))
+			hv.hv = append(hv.hv, zInt(sv.Int64("hv")))
+		}
+		vars["H"] = hv
+		order = append(order, "H")
+		it = xVar("H")
+	}
+	k := sv.Int64("K")
+	sv.Assume(k >= 0 && k <= 2)
+	vars["K"] = zInt(k)
+	order = append(order, "K")
+	var p *zzProg
+	keepAt := func(body ...*zzStmt) *zzStmt { return stIf(xBin("==", xVar("n"), xVar("K")), body...) }
+	count := stSet("n", xBin("+", xVar("n"), xLit(1)))
+	switch sv.Choice("shape", 4) {
+	case 0: // keep the K-th value and index
+		p = &zzProg{main: []*zzStmt{stSet("n", xLit(0)), stSet("x", xLit(-1)), stSet("y", xLit(-1)),
+			stEach("i", "c", it, keepAt(stSet("x", xVar("c")), stSet("y", xVar("i"))), count),
+			stT(xVar("x")), stT(xVar("y")), stRet(xVar("x"))}}
+	case 1: // keep it through a function
+		p = &zzProg{funcs: []*zzFunc{{name: "keep", params: []string{"p", "q"}, body: []*zzStmt{stSet("x", xVar("p")), stSet("y", xVar("q")), stRet(xLit(0))}}},
+			main: []*zzStmt{stSet("n", xLit(0)), stSet("x", xLit(-1)), stSet("y", xLit(-1)),
+				stEach("i", "c", it, keepAt(stSet("r", xCall("keep", xVar("c"), xVar("i")))), count),
+				stT(xVar("x")), stT(xVar("y")), stRet(xVar("y"))}}
+	case 2: // the previous value, reported one step later
+		p = &zzProg{main: []*zzStmt{stSet("x", xLit(-1)), stSet("y", xLit(-1)),
+			stEach("i", "c", it, stT(xVar("x")), stT(xVar("y")), stSet("x", xVar("c")), stSet("y", xVar("i"))),
+			stT(xVar("x")), stRet(xVar("y"))}}
+	default: // kept in an array built inside the loop
+		p = &zzProg{main: []*zzStmt{stSet("n", xLit(0)), stSet("x", &zzExpr{kind: eArr}),
+			stEach("i", "c", it, keepAt(stSet("x", &zzExpr{kind: eArr, args: []*zzExpr{xVar("c"), xVar("i")}})), count),
+			stEach("", "v", xVar("x"), stT(xVar("v"))), stRet(xVar("n"))}}
+	}
+	src := p.text()
+	sv.Note("script", src)
+	var trace []object.Object
+	e, err := zzPrepare(sv, src, vars, order, sv.Choice("noopt", 2) == 1, &trace)
+	sv.Assume(err == nil)
+	out, rerr := e.Execute(nil)
+	ref, want := zzRunRef(sv, p, vars, nil)
+	zzDescribe(sv, "result", out, rerr)
+	zzCompareRun(sv, "C15.loop", e, out, rerr, trace, ref, want, []string{"x", "y", "n"})
 }
